@@ -55,6 +55,9 @@ struct LoopCfg {
 	/// `let PAT = vx_entsN[vx_iN];` (a copy of the `(&K, &V)` pair, the item type of the original iterator)
 	#[serde(default)]
 	map_entries: bool,
+	/// with index_loop: the loop is `for PAT in X` over an owned Vec `X` (a path); the element is bound by reference
+	#[serde(default)]
+	by_value_as_ref: bool,
 }
 
 #[derive(Deserialize, Clone, Debug, Default)]
@@ -745,6 +748,9 @@ impl<'ast, 'c> Visit<'ast> for FnVisitor<'c> {
 		if let Some(lc) = cfg.clone().filter(|l| l.index_loop) {
 			let recv = match &*fl.expr {
 				syn::Expr::MethodCall(mc) if mc.method == "iter" && mc.args.is_empty() => br(mc.receiver.span()),
+				// `for PAT in X` over an owned Vec named by a path: the index loop binds `&X[i]`; accepted only because the
+				// generated text must still type-check, i.e. the body only reads the element
+				syn::Expr::Path(_) if lc.by_value_as_ref => br(fl.expr.span()),
 				_ => die(&format!("{}: loop {}: index_loop needs `for PAT in X.iter()`", self.fname, ord)),
 			};
 			let (ps, pe) = br(fl.pat.span());
